@@ -27,18 +27,22 @@ type Case struct {
 	Fall bool     `json:"fallthrough,omitempty"`
 }
 
-// Stmt kinds: assign inc dec write if for break continue switch
+// Stmt kinds: assign tuple inc dec write if for break continue switch
 type Stmt struct {
-	Kind  string  `json:"k"`
-	Name  string  `json:"n,omitempty"` // assigned variable / output name
-	E     *Expr   `json:"e,omitempty"` // value, or left side of a condition
-	E2    *Expr   `json:"e2,omitempty"`
-	Init  *Stmt   `json:"init,omitempty"`
-	Post  *Stmt   `json:"post,omitempty"`
-	Body  []*Stmt `json:"body,omitempty"`
-	Else  []*Stmt `json:"else,omitempty"`
-	HasEl bool    `json:"has_else,omitempty"`
-	Cases []Case  `json:"cases,omitempty"`
+	Kind string `json:"k"`
+	Name string `json:"n,omitempty"` // assigned variable / output name
+	// tuple assignment "Names[0], Names[1], ... = Es[0], Es[1], ...": every right-hand side is
+	// evaluated before any variable is stored
+	Names []string `json:"names,omitempty"`
+	Es    []*Expr  `json:"es,omitempty"`
+	E     *Expr    `json:"e,omitempty"` // value, or left side of a condition
+	E2    *Expr    `json:"e2,omitempty"`
+	Init  *Stmt    `json:"init,omitempty"`
+	Post  *Stmt    `json:"post,omitempty"`
+	Body  []*Stmt  `json:"body,omitempty"`
+	Else  []*Stmt  `json:"else,omitempty"`
+	HasEl bool     `json:"has_else,omitempty"`
+	Cases []Case   `json:"cases,omitempty"`
 }
 
 // Func is a user function: parameters, optional local statements, one returned expression.
@@ -97,6 +101,12 @@ func (s *Stmt) simple() string {
 	switch s.Kind {
 	case "assign":
 		return s.Name + " = " + s.E.src()
+	case "tuple":
+		var r []string
+		for _, e := range s.Es {
+			r = append(r, e.src())
+		}
+		return strings.Join(s.Names, ", ") + " = " + strings.Join(r, ", ")
 	case "inc":
 		return s.Name + "++"
 	case "dec":
@@ -113,7 +123,7 @@ func block(sb *strings.Builder, body []*Stmt, ind string) {
 
 func (s *Stmt) print(sb *strings.Builder, ind string) {
 	switch s.Kind {
-	case "assign", "inc", "dec":
+	case "assign", "tuple", "inc", "dec":
 		sb.WriteString(ind + s.simple() + "\n")
 	case "write":
 		sb.WriteString(ind + "bondgo.IOWrite(" + s.Name + ", " + s.E.src() + ")\n")
@@ -273,6 +283,14 @@ func (st *evalState) simple(s *Stmt) {
 	switch s.Kind {
 	case "assign":
 		st.vars[s.Name] = st.expr(s.E, nil)
+	case "tuple":
+		vals := make([]uint64, len(s.Es))
+		for i, e := range s.Es {
+			vals[i] = st.expr(e, nil)
+		}
+		for i, n := range s.Names {
+			st.vars[n] = vals[i]
+		}
 	case "inc":
 		st.vars[s.Name] = (st.vars[s.Name] + 1) & st.mask
 	case "dec":
@@ -287,7 +305,7 @@ func (st *evalState) run(body []*Stmt) int {
 			return flowBreak
 		}
 		switch s.Kind {
-		case "assign", "inc", "dec":
+		case "assign", "tuple", "inc", "dec":
 			st.simple(s)
 		case "write":
 			var k int
@@ -384,6 +402,7 @@ type Opts struct {
 	NoLoops   bool
 	NoMemVars bool
 	NoRegVars bool
+	NoTuples  bool
 	MaxStmts  int
 }
 
@@ -464,6 +483,41 @@ func (g *gen) expr(depth int, params []string) *Expr {
 	}
 }
 
+// tuple draws "a, b[, c] = ..." over distinct free variables; the right-hand sides read the assigned
+// variables themselves (swap, rotation, a, b = b, a+b), so storing a value before every right-hand
+// side has been evaluated changes the result.
+func (g *gen) tuple() *Stmt {
+	var free []string
+	for _, v := range g.p.Vars {
+		if !g.reserved[v] {
+			free = append(free, v)
+		}
+	}
+	if len(free) < 2 {
+		return nil
+	}
+	g.rng.Shuffle(len(free), func(i, j int) { free[i], free[j] = free[j], free[i] })
+	n := 2
+	if len(free) > 2 && g.rng.IntN(3) == 0 {
+		n = 3
+	}
+	s := &Stmt{Kind: "tuple", Names: free[:n]}
+	v := func(i int) *Expr { return &Expr{Kind: "var", Name: free[i%n]} }
+	for i := 0; i < n; i++ {
+		switch g.rng.IntN(4) {
+		case 0: // rotation
+			s.Es = append(s.Es, v(i+1))
+		case 1:
+			s.Es = append(s.Es, &Expr{Kind: "add", L: v(i), R: v(i + 1)})
+		case 2:
+			s.Es = append(s.Es, &Expr{Kind: []string{"add", "mul"}[g.rng.IntN(2)], L: v(i + 1), R: g.lit()})
+		default:
+			s.Es = append(s.Es, g.expr(1, nil))
+		}
+	}
+	return s
+}
+
 func (g *gen) stmts(n, depth int) []*Stmt {
 	var out []*Stmt
 	for i := 0; i < n; i++ {
@@ -490,6 +544,11 @@ func (g *gen) stmt(depth int) []*Stmt {
 	}
 	switch {
 	case k < 3:
+		if !g.o.NoTuples && g.rng.IntN(4) == 0 {
+			if t := g.tuple(); t != nil {
+				return []*Stmt{t}
+			}
+		}
 		return []*Stmt{{Kind: "assign", Name: g.freeVar(), E: g.expr(2, nil)}}
 	case k == 3:
 		return []*Stmt{{Kind: []string{"inc", "dec"}[g.rng.IntN(2)], Name: g.freeVar()}}
